@@ -1,3 +1,4 @@
+import json
 """C18 — extending a configurator equals building it with the extra rule."""
 import random, json
 import numpy as np
@@ -38,7 +39,16 @@ def safe_observe(cfg, items):
     except BaseException as e:              # an empty configurator has no polyhedron (puan_rspy panics are BaseException)
         return {"structure": full_dump(cfg), "raised": type(e).__name__}
 
+def solver_got_other(o):
+    """select() hands the solver the configurator's own asserted polyhedron"""
+    calls = o.get("select_args") or []
+    return bool(calls) and calls[0][0] != "exception" and calls[0][0] != o.get("matrix")
+
 def oracle_case(res, base_ast, adds, items):
+    bad = _oracle_case(res, base_ast, adds, items)
+    return bad
+
+def _oracle_case(res, base_ast, adds, items):
     cfg = build(base_ast)
     before = full_dump(cfg)
     snapshot = safe_observe(build(base_ast), items)         # what a fresh identical original answers
@@ -53,6 +63,9 @@ def oracle_case(res, base_ast, adds, items):
     if c.id != cfg.id:
         return f"add() changed the configurator id {cfg.id} -> {c.id}"
     a, d = safe_observe(c, items), safe_observe(direct, items)      # a configurator nobody can convert raises on both sides alike
+    for who, o in (("a fresh identical original", snapshot), ("the extended configurator", a), ("the directly constructed configurator", d)):
+        if solver_got_other(o):
+            return f"select() on {who} handed the solver a polyhedron that is not its ge_polyhedron: {str(o['select_args'][0][0])[:200]} vs {str(o['matrix'])[:200]}"
     if ("raised" in a) != ("raised" in d):
         return f"add-chain and direct construction differ: one raises on conversion, the other does not ({a.get('raised')} vs {d.get('raised')})"
     for k in a:
@@ -61,6 +74,8 @@ def oracle_case(res, base_ast, adds, items):
     # the original must still answer like a fresh identical configurator AFTER the extended one was observed
     # (add() shares the rule objects with the original)
     now = safe_observe(cfg, items)
+    if solver_got_other(now):
+        return f"select() on the original, after the extended configurator was used, handed the solver a polyhedron that is not its ge_polyhedron: {str(now['select_args'][0][0])[:200]} vs {str(now['matrix'])[:200]}"
     for k in snapshot:
         if now.get(k) != snapshot[k]:
             return f"the original configurator changed in {k} after the extended one was built and observed: {str(snapshot[k])[:300]} -> {str(now.get(k))[:300]}"
@@ -86,6 +101,20 @@ def run(res, tier, seed):
         if rng.random() < 0.2:
             # an item is added, not a rule: a bare variable (names as in the generator's pool of bare items)
             adds.insert(rng.randrange(len(adds) + 1), {"k": "var", "id": rng.choice(["1a", "9", "10", "zz", "Base", "q7"]), "b": [0, 1]})
+        if rng.random() < 0.2:
+            # the added rule brings no new id: an item that so far only occurs inside rules becomes required, or a named
+            # sub-proposition of a rule is promoted to a rule of its own
+            inner = [c for r in base["ch"] if isinstance(r, dict) for c in r.get("ch", []) if isinstance(c, dict)]
+            named = [c for c in inner if c["k"] not in ("str", "var") and c.get("id") and not c.get("default")]
+            atoms = [c for c in inner if c["k"] in ("str", "var")]
+            if named and rng.random() < 0.5:
+                adds = [json.loads(json.dumps(ast_json(rng.choice(named))))] + (adds[:1] if rng.random() < 0.3 else [])
+                res.count("add_promotes_sub_proposition")
+            elif atoms:
+                a0 = rng.choice(atoms)
+                adds = [{"k": "var", "id": a0["id"], "b": list(a0.get("b", [0, 1]))}] + (adds[:1] if rng.random() < 0.3 else [])
+                res.count("add_requires_existing_item")
+            nadd = len(adds)
         if rng.random() < 0.08:
             # a configurator that holds exactly ONE rule, an unnamed group (a single package): what add() starts from must be
             # what direct construction builds from the same rule
